@@ -82,9 +82,7 @@ Print Assumptions C04_resumed_server_binds.
 
 (* F5, decision-function level: the server's verdict does not depend on the client's verify_data *)
 Theorem C04_server12_ignores_client_verify_data :
-  forall s v b, server12_with false s v =
-    server12_with false s (mk_cview (cl_suite v) (cl_cke_msg v) (cl_certs_given v) (cl_cert_parses v) (cl_cv_msg v)
-      (cl_scheme_allowed v) (cl_cv_valid v) (cl_chain_valid v) (cl_vpc_ok v) (cl_vc_ok v) (cl_fin_arrives v) b).
+  forall s v b, server12_with false s v = server12_with false s (cl_with_fin_valid v b).
 Proof. exact server12_ignores_client_verify_data. Qed.
 Print Assumptions C04_server12_ignores_client_verify_data.
 
